@@ -362,6 +362,9 @@ func (g *gen) acase() acaseT {
 	if r.Chance(1, 6) {
 		k.CtxDone = r.Range(1, 2)
 	}
+	// a guard that fails and then falls through to c.Next(); the router's other dispatch loop
+	k.NextAfterFail = r.Chance(1, 6)
+	k.NoCancelCheck = r.Chance(1, 5)
 	// a guard: c.Abort() first, then the error response
 	k.AbortFirst = r.Chance(1, 6)
 	// something had set a Content-Type before the error happened
@@ -452,6 +455,9 @@ func fixedCases() []caseT {
 	// deadline exceeded inside the handler, then FailStatus(504)
 	add(acaseT{Wire: "r", Len: 2, Pos: 1, Mask: 1, CtxDone: 2, Call: callT{Kind: "status", Status: 504, Err: &errT{Kind: "new", Msg: "backend timed out"}}})
 	add(acaseT{Wire: "s", Len: 3, Pos: 1, Mask: 1, CtxDone: 1, Call: callT{Kind: "helper", Helper: 9, Err: boom}})
+	// guard with a missing return on a router without cancellation checks: Unauthorized, then Next
+	add(acaseT{Wire: "r", Len: 3, Pos: 0, NoCancelCheck: true, NextAfterFail: true, Call: callT{Kind: "helper", Helper: 2, Err: boom}})
+	add(acaseT{Wire: "r", Len: 4, Pos: 1, Mask: 1, NextAfterFail: true, Call: callT{Kind: "helper", Helper: 2, Err: boom}})
 	// guard middleware: Abort, then Forbidden
 	add(acaseT{Wire: "r", Len: 3, Pos: 0, AbortFirst: true, Call: callT{Kind: "helper", Helper: 3, Err: boom}})
 	// a Content-Type already set when the handler fails (download handler; default-content-type middleware)
